@@ -99,7 +99,7 @@ Definition srv12 : server := mkServer 7 [V12] [49195; 49199; 47] [4588; 29; 23; 
 Definition srv13 : server := mkServer 7 [V13] [49195; 49199; 47] [4588; 29; 23; 24; 25] 5000000 [1; 2; 3; 4; 5; 6].
 Definition srv13hrr : server := mkServer 7 [V13] [49195; 49199; 47] [24] 5000000 [1; 2; 3; 4; 5; 6].
 Definition offer_code_ex (o : obs) : N := match o_offer o with None => 0 | Some (ViaTicket, _) => 1 | Some (ViaPsk, _) => 2 end.
-Definition at_ (sp : spec) (sv : server) (name now suite : N) : conn := mkConn sp name 100 sv now true false suite 120.
+Definition at_ (sp : spec) (sv : server) (name now suite : N) : conn := mkConn sp name 100 sv now true false suite 120 0 false.
 
 Theorem C19_resume_hrr_refuted : ~ C19_resume_hrr_full.
 Proof.
@@ -110,7 +110,7 @@ Proof.
   assert (H3 : can_resume (c_spec c1) (c_srv c1) V13).
   { right. split; [reflexivity|]. split; [reflexivity|]. split; [reflexivity|]. vm_compute. discriminate. }
   assert (H4 : same_config c1 c2).
-  { split; [reflexivity|]. split; [reflexivity|]. split; [reflexivity|]. split; reflexivity. }
+  { split; [reflexivity|]. split; [reflexivity|]. split; [reflexivity|]. split; [reflexivity|]. split; [reflexivity|]. split; reflexivity. }
   assert (H5 : spec_wf (c_spec c2) (c_omit c2)).
   { intros _. split; [reflexivity|]. split; [vm_compute; apply le_n|]. intros _. reflexivity. }
   assert (H6 : mem (c_suite c1) (sp_suites (c_spec c1)) = true) by reflexivity.
@@ -217,7 +217,7 @@ Example C19_ex_hyps :
 Proof.
   cbv zeta. split; [vm_compute; reflexivity|]. split; [reflexivity|].
   split. { right. split; [reflexivity|]. split; [reflexivity|]. split; [reflexivity|]. vm_compute. discriminate. }
-  split. { split; [reflexivity|]. split; [reflexivity|]. split; [reflexivity|]. split; reflexivity. }
+  split. { split; [reflexivity|]. split; [reflexivity|]. split; [reflexivity|]. split; [reflexivity|]. split; [reflexivity|]. split; reflexivity. }
   split. { intros _. split; [reflexivity|]. split; [vm_compute; apply le_n|]. intros _. reflexivity. }
   split. { right. reflexivity. }
   intros s L. vm_compute in L. inversion L; subst s. split; [|split]; apply N.leb_le; reflexivity.
@@ -226,7 +226,7 @@ Qed.
 Example C19_ex_ip_names : map resumed (run [] [at_ golang srv13 4 1000 4865; at_ golang srv13 5 2000 4865; at_ golang srv13 4 3000 4865]) = [false; false; true].
 Proof. vm_compute. reflexivity. Qed.
 Example C19_ex_no_name :
-  let c n t := mkConn golang n 100 srv13 t true true 4865 120 in
+  let c n t := mkConn golang n 100 srv13 t true true 4865 120 0 false in
   map resumed (run [] [c 0 1000; c 4 2000; c 0 3000; c 4 4000]) = [false; false; true; true].
 Proof. vm_compute. reflexivity. Qed.
 (* five connections: the chain resumes throughout (TLS 1.2 keeps the server-side creation time, TLS 1.3 refreshes it) *)
@@ -242,7 +242,7 @@ Proof.
   assert (F : forall t, (t <=? 605800) = true -> (605800 <=? t + LIFETIME) = true ->
               follows (at_ chrome_psk srv13 1 1000 4865) V13 605800 (at_ chrome_psk srv13 1 t 4865)).
   { intros t H1 H2. split.
-    { split; [reflexivity|]. split; [reflexivity|]. split; [reflexivity|]. split; reflexivity. }
+    { split; [reflexivity|]. split; [reflexivity|]. split; [reflexivity|]. split; [reflexivity|]. split; [reflexivity|]. split; reflexivity. }
     split. { intros _. split; [reflexivity|]. split; [vm_compute; apply le_n|]. intros _. reflexivity. }
     split. { intros _. right. reflexivity. }
     split; apply N.leb_le; assumption. }
@@ -251,6 +251,16 @@ Qed.
 Example C19_ex_interleave :
   let a t := at_ chrome srv12 1 t 49195 in let b t := at_ golang srv13 2 t 4865 in
   map resumed (run_key 1 [] [a 1000; b 1500; a 2000; b 2500; b 3000; a 3500]) = [false; true; true].
+Proof. vm_compute. reflexivity. Qed.
+(* a verifying client with InsecureServerNameToVerify = "*" (no host name check) or another name the leaf covers, and one
+   with InsecureSkipTimeVerify after the leaf expired, still resume; a name the leaf does not cover is refused *)
+Example C19_ex_verify_modes :
+  let c vn st t := mkConn chrome 1 100 srv12 t true false 49195 120 vn st in
+  (map resumed (run [] [c STAR false 1000; c STAR false 2000]),
+   map resumed (run [] [c 2 false 1000; c 2 false 2000]),
+   map resumed (run [] [c 0 true 5000001; c 0 true 5000002]),
+   map o_out (run [] [c 77 false 1000]))
+  = ([false; true], [false; true], [false; true], [CliErr E_CERT]).
 Proof. vm_compute. reflexivity. Qed.
 Example C19_ex_binder : psk_ext_len [mkIdent [1; 2; 3] 5] [placeholder 4866] = 4 + 2 + (2 + 3 + 4) + 2 + 49.
 Proof. vm_compute. reflexivity. Qed.
